@@ -209,11 +209,64 @@ def reload(ck, ctx, info):
         ck.ob("same-manifest", "load-%s" % which, ok, "the %s load::read receives the manifest name (-f value or build.ninja)" % which, span=site[1]["loc"], fn=BUILD)
 
 
+def ids_across_reload(ck, ctx, info):
+    """A FileId looked up in the phase-1 graph and used after the reload (the `already built above` test, want_every_file's
+    exclusion) denotes the same file only if that file has the same id in every generation: load::read interns the manifest
+    name into the still-empty graph before anything is parsed.  (If build() re-resolved the name after the reload this would
+    not be needed: that alternative is recognised too.)"""
+    F = ctx.F
+    b, cfg, R = info["b"], info["cfg"], info["R"]
+    news = sorted(info["news"], key=lambda x: sum(1 for y in info["news"] if cfg.dominates(y[0], x[0])))
+    n2 = news[-1]
+    old_lookups = [bb for bb, t in info["lookups"] if not cfg.can_reach(n2[0], bb)]
+    after = cfg.reach_avoid([y for y, _ in cfg.succ[n2[0]]])
+    stale_uses = []
+    for x in sorted(after):
+        blk = b.blocks[x]
+        t = blk["term"]
+        es = []
+        if t and t["k"] == "call":
+            es = [R.arg(x, i) for i in range(len(t["args"]))]
+        elif t and t["k"] == "switch":
+            es = [R.discr(x)]
+        for e in es:
+            if any(c[1] == "work::Work::lookup" and c[3] in old_lookups for c in calls_in(e)):
+                stale_uses.append(x)
+                break
+    ck.extra["ids_used_across_reload"] = len(stale_uses)
+    if not stale_uses:
+        ck.ob("reload", "ids-across-reload", True, "no FileId resolved in the phase-1 graph is used after the reload", span=b.loc, fn=BUILD)
+        return
+    # the ids used across the reload are those of the manifest target only
+    users = {x for x, _ in info["mt"]}
+    only_mt = all(o in users for o in old_lookups)
+    rd = ck.need("closure load::read::{closure#0}", F.body("load::read::{closure#0}"))
+    RR = ctx.res(rd)
+    rcfg = ctx.cfg(rd)
+    ck.functions.add(rd.nname)
+    interns = [(bb, t) for bb, t in rd.calls() if callee_of(t) == "graph::GraphFiles::id_from_canonical"]
+    parses = [(bb, t) for bb, t in rd.calls() if callee_of(t) == "load::Loader::parse_with_parser"]
+    ok = len(interns) >= 1 and len(parses) == 1
+    if ok:
+        ibb = interns[0][0]
+        e = strip(RR.arg(ibb, 1))
+        from_name = any(c[1].endswith("to_owned_canon_path") for c in calls_in(e)) and any(y[0] == "field" and strip(y[1])[0] == "param" for y in walk(e))
+        first = all(rcfg.dominates(ibb, bb) for bb, _ in parses) and all(rcfg.dominates(ibb, bb) or bb == ibb for bb, _ in interns)
+        # the graph is still empty: Loader::new interns nothing
+        ln = F.body("load::Loader::new")
+        empty = ln is not None and not any(callee_of(t).endswith(("id_from_canonical", "Graph::add_build")) for _, t in ln.calls())
+        rb_ = F.body("load::read")
+        newsite = [bb for bb, t in rb_.calls() if callee_of(t) == "load::Loader::new"] if rb_ is not None else []
+        ok = from_name and first and empty and len(newsite) == 1
+    ck.ob("reload", "ids-across-reload", ok and only_mt, "the manifest target's FileId, resolved before the reload and used after it (%d uses), is generation-independent: load::read interns the manifest name into the empty graph before parsing anything" % len(stale_uses), span=rd.loc, fn=rd.nname)
+
+
 def run(ck, ctx):
     info = analyse(ck, ctx)
     phase_order(ck, ctx, info)
     RL.run_false_stops(ck, ctx, "fail-stop")
     reload(ck, ctx, info)
+    ids_across_reload(ck, ctx, info)
     R01.ready_want(ck, ctx)
     from . import C19 as R19
     R19.tasks_run(ck, ctx)
